@@ -3,24 +3,40 @@
 The driver decouples the target from queue awareness. The target entity
 receives work events without knowing they came from a queue. The driver
 manages polling based on target capacity and re-polls after work completion.
+
+Hand-offs are serialized: the driver asks the queue for one item at a time and
+looks at ``target.has_capacity()`` again only after the previous item has been
+handed to the target. A poll decided while an item is still on its way to the
+target would see a stale ``has_capacity()`` and could over-commit the target;
+stopping after one item would leave a target with ``concurrency > 1`` partly
+idle while work waits.
 """
 
 from __future__ import annotations
 
 import logging
-from dataclasses import dataclass
+from dataclasses import dataclass, field
 from typing import TYPE_CHECKING
 
 from happysimulator.components.queue import QueueDeliverEvent, QueueNotifyEvent, QueuePollEvent
 from happysimulator.core.entity import Entity
+from happysimulator.core.event import Event
 
 if TYPE_CHECKING:
     from collections.abc import Generator
 
-    from happysimulator.core.event import Event
     from happysimulator.core.temporal import Instant
 
 logger = logging.getLogger(__name__)
+
+
+class _HandoffDoneEvent(Event):
+    """Driver-internal: the item forwarded just before this event has reached the target."""
+
+    __slots__ = ()
+
+    def __init__(self, *, time: Instant, target: Entity):
+        super().__init__(time=time, event_type="QUEUE_HANDOFF_DONE", target=target)
 
 
 @dataclass
@@ -34,9 +50,11 @@ class QueueDriver(Entity):
     Event flow:
     1. Queue sends QueueNotifyEvent when items are available
     2. Driver checks target.has_capacity() and polls if ready
-    3. Queue sends QueueDeliverEvent with payload
+    3. Queue sends QueueDeliverEvent with payload (or an empty one)
     4. Driver retargets payload to target and schedules it
-    5. On completion, driver re-polls if target has capacity
+    5. Once the target has received it, driver polls again if the target
+       still has capacity and the queue still holds work
+    6. On completion, driver re-polls if target has capacity
 
     Attributes:
         name: Identifier for logging.
@@ -47,6 +65,9 @@ class QueueDriver(Entity):
     name: str = "QueueDriver"
     queue: Entity = None
     target: Entity = None
+    # True from the moment a poll is sent until its item has reached the target
+    # (or the queue answered that it had nothing).
+    _handoff_pending: bool = field(default=False, init=False, repr=False)
 
     def downstream_entities(self) -> list[Entity]:
         result: list[Entity] = []
@@ -61,12 +82,28 @@ class QueueDriver(Entity):
         if isinstance(event, QueueDeliverEvent):
             return self._handle_delivery(event)
 
+        if isinstance(event, _HandoffDoneEvent):
+            return self._handle_handoff_done()
+
         return []
+
+    def _poll_if_ready(self, time: Instant) -> QueuePollEvent | None:
+        """Ask the queue for one item unless a hand-off is in flight or the target is full."""
+        if self._handoff_pending:
+            logger.debug("[%s] Hand-off in flight, deferring poll", self.name)
+            return None
+        if not self.target.has_capacity():
+            logger.debug("[%s] Target at capacity, deferring poll", self.name)
+            return None
+        logger.debug("[%s] Target has capacity, scheduling poll", self.name)
+        self._handoff_pending = True
+        return QueuePollEvent(time=time, target=self.queue, requestor=self)
 
     def _handle_delivery(self, event: QueueDeliverEvent) -> list[Event]:
         """Queue delivered one payload event; clone/retarget and re-emit."""
         if event.payload is None:
             logger.debug("[%s] Received empty delivery", self.name)
+            self._handoff_pending = False
             return []
         logger.debug(
             "[%s] Received delivery: type=%s, forwarding to target",
@@ -77,23 +114,25 @@ class QueueDriver(Entity):
 
     def _handle_work_payload(self, payload: Event) -> list[Event]:
         def schedule_poll(time: Instant):
-            if self.target.has_capacity():
-                logger.debug("[%s] Target has capacity, scheduling poll", self.name)
-                return QueuePollEvent(time=time, target=self.queue, requestor=self)
-            logger.debug("[%s] Target at capacity, deferring poll", self.name)
-            return None
+            return self._poll_if_ready(time)
 
         target_event = payload
         target_event.time = self.now
         target_event.target = self.target
         target_event.add_completion_hook(schedule_poll)
-        return [target_event]
+        # The follow-up is created after the payload, so it is delivered after the
+        # target has taken the payload: only then is has_capacity() accurate again.
+        return [target_event, _HandoffDoneEvent(time=self.now, target=self)]
+
+    def _handle_handoff_done(self) -> list[Event]:
+        """The forwarded item reached the target; serve the next one if there is room."""
+        self._handoff_pending = False
+        if getattr(self.queue, "depth", 1) <= 0:
+            return []
+        poll = self._poll_if_ready(self.now)
+        return [poll] if poll is not None else []
 
     def _handle_notify(self, _: QueueNotifyEvent) -> list[Event]:
         """Queue has work available—poll if target has capacity."""
-        if not self.target.has_capacity():
-            logger.debug("[%s] Notify received but target at capacity", self.name)
-            return []
-
-        logger.debug("[%s] Notify received, polling queue", self.name)
-        return [QueuePollEvent(time=self.now, target=self.queue, requestor=self)]
+        poll = self._poll_if_ready(self.now)
+        return [poll] if poll is not None else []
